@@ -429,4 +429,55 @@ def projDocC13 : PVal → PVal
 theorem projDep_embSDepC13 (rk : Nat) (d : SDep) : projDepC10b (embSDepC13 rk d) = embSDepC13 rk d := by
   simp [projDepC10b, embSDepC13, embDepObjC10b, depFieldNamesC10b, fieldGet?]
 
+
+/-! ### `json.dumps` of the record -/
+
+theorem jsonOfKvs_kvsC13 (d : List (Str × Str)) :
+    jsonOfKvsC13 (d.map fun kv => (kv.1, PVal.str kv.2)) = .ok (kvObj d) := by
+  induction d with
+  | nil => rfl
+  | cons x t ih =>
+    obtain ⟨k, v⟩ := x
+    simp only [List.map_cons, jsonOfKvsC13, jsonOfPValC13, pure_eq_ok, ok_bind, ih, kvObj]
+
+theorem jsonOfPVal_kvsC13 (d : List (Str × Str)) : jsonOfPValC13 (embKvsC10b d) = .ok (.obj (kvObj d)) := by
+  simp only [embKvsC10b, jsonOfPValC13, jsonOfKvs_kvsC13, ok_bind, pure_eq_ok]
+
+theorem jsonOfList_dictsC13 (l : List (List (Str × Str))) : jsonOfListC13 (l.map embKvsC10b) = .ok (kvArr l) := by
+  induction l with
+  | nil => rfl
+  | cons x t ih => simp only [List.map_cons, jsonOfListC13, jsonOfPVal_kvsC13, ih, ok_bind, pure_eq_ok, kvArr]
+
+theorem jsonOfPVal_dictsC13 (l : List (List (Str × Str))) : jsonOfPValC13 (embDictsC10b l) = .ok (.arr (kvArr l)) := by
+  simp only [embDictsC10b, jsonOfPValC13, jsonOfList_dictsC13, ok_bind, pure_eq_ok]
+
+theorem jsonOfPVal_sourceC13 (s : DepSource) : jsonOfPValC13 (sourceVC13 s).emb = .ok (srcJson s) := by
+  cases s with
+  | none => rfl
+  | href h => rfl
+  | subdir p d a => cases p <;> rfl
+
+/-- the `indent=` argument -/
+def optNatC13 : Option Nat → PVal
+  | Option.none => PVal.none
+  | some n => .int n
+
+theorem jsonIndent_optNatC13 (i : Option Nat) : jsonIndentC13 (optNatC13 i) = .ok i := by
+  cases i with
+  | none => rfl
+  | some n => simp [optNatC13, jsonIndentC13]
+
+/-- `json.dumps(res, indent=indent)` for the `res` dict of `serialize_to_script_json` is the model's print of the record -/
+theorem jsonDumps_recordC13 (info : DepInfo) (head : Option Str) (ind : Option Nat) :
+    pyJsonDumpsC13
+        (.dict [(kName, .str info.name), (kVersion, .str info.version), (kSource, (sourceVC13 info.source).emb),
+          (kScript, embDictsC10b info.script), (kStylesheet, embDictsC10b info.stylesheet), (kMeta, embDictsC10b info.metas),
+          (kAllFiles, .bool info.allFiles), (kHead, optStrC13 head)])
+        (optNatC13 ind)
+      = .ok (.str (jsonPrint ind (depToJson { info := info, head := head }))) := by
+  have hh : jsonOfPValC13 (optStrC13 head) = .ok (optStrJson head) := by
+    cases head <;> rfl
+  simp only [pyJsonDumpsC13, jsonOfPValC13, jsonOfKvsC13, jsonOfPVal_sourceC13, jsonOfPVal_dictsC13, hh, jsonIndent_optNatC13,
+    ok_bind, pure_eq_ok, depToJson]
+
 end HtmlVerif.SrcTie
